@@ -1,4 +1,6 @@
 mod ops_graph;
+mod ops_types;
+mod rty;
 mod out;
 mod rng;
 
@@ -10,6 +12,10 @@ pub fn exec(op: &str, input: &Value) -> (Value, Value) {
     match op {
         "topo" => ops_graph::exec_topo(input),
         "kahn" => ops_graph::exec_kahn(input),
+        "typeStr" => ops_types::exec_type_str(input),
+        "parseTS" => ops_types::exec_parse_ts(input),
+        "site" => ops_types::exec_site(input),
+        "prefix" => ops_types::exec_prefix(input),
         _ => (input.clone(), json!({"error": format!("unknown op {}", op)})),
     }
 }
@@ -53,6 +59,7 @@ fn main() {
             }
         }
         "graph" => ops_graph::run(&mut out, &tier, &mut rng),
+        "types" => ops_types::run(&mut out, &tier, &mut rng),
         _ => {
             eprintln!("unknown group {}", group);
             std::process::exit(2);
